@@ -27,9 +27,10 @@
 /*@unit {'name':'c14_read_literal', 'props':['C14'], 'entry':'h_read_literal', 'enforce':'read_literal', 'min_loops':1, 'defines':['LOOP_CONTRACTS'],
          'replay':'c14_lz4', 'witness_defines':['WITNESS'], 'witness_vars':['w_n','w_at','w_l','w_b'],
          'claims':'read_literal: reads only [s,e), leaves s in [old s,e]; a nibble below 15 (or an exhausted input) is returned unchanged; otherwise the result is 15 + 255*(k-1) + last byte (mod 2^32) where the k>=1 bytes consumed are a run of 0xff closed by the first other byte or by the end of the input; terminates (decreases)'}@*/
-/*@unit {'name':'c14_read_sequence', 'props':['C14'], 'entry':'h_read_sequence', 'enforce':'read_sequence', 'replace':['read_literal_a','read_literal_b'],
+/*@unit {'name':'c14_read_sequence', 'props':['C14'], 'entry':'h_read_sequence', 'enforce':'read_sequence', 'kind':'bounded', 'loop_contracts':False, 'unwind':50,
+         'bound':'input of at most 48 bytes (the only loop is read_literal\'s, proved for all sizes in c14_read_literal; read_sequence itself is loop-free)',
          'replay':'c14_lz4', 'witness_defines':['WITNESS'], 'witness_vars':['w_n','w_at','w_b'],
-         'claims':'read_sequence: reads only [src,end); the literal run starts inside the input; returns true exactly when the literals, the 2-byte offset and the match length bytes fit and leave MINCODA=6 bytes (token + LASTLITERALS) of input, then literal+literal_len+2 <= src <= end-6, match_dist is the little-endian 16-bit offset, match_len = nibble(+extension)+MINMATCH; on false the literal run still starts inside [src,end]'}@*/
+         'claims':'read_sequence (real read_literal inlined): reads only [src,end); the literal run starts inside the input; returns true exactly when the literals, the 2-byte offset and the match length bytes fit and leave MINCODA=6 bytes (token + LASTLITERALS) of input, then literal+literal_len+2 <= src <= end-6, match_dist is the little-endian 16-bit offset, match_len = nibble(+extension)+MINMATCH, literal_len = nibble(+extension); on false the literal run still starts inside [src,end]'}@*/
 /*@unit {'name':'c14_safe_copy', 'props':['C14'], 'loop_contracts':False, 'entry':'h_copy', 'enforce':'safe_copy', 'kind':'bounded', 'unwind':18, 'bound':'n <= 16 bytes in a 24-byte object',
          'claims':'safe_copy writes exactly [d,d+n), reads exactly [s,s+n), returns d+n, and has byte-serial (LZ77 overlapping) semantics: d[i] = s[i] evaluated after the bytes before it were stored'}@*/
 /*@unit {'name':'c14_overrun_copy', 'props':['C14'], 'loop_contracts':False, 'entry':'h_copy', 'enforce':'overrun_copy', 'kind':'bounded', 'unwind':7, 'bound':'n <= 40 bytes in a 48-byte object',
@@ -103,12 +104,6 @@ __CPROVER_ensures((l == 15 && S0 != e) ==> (CONSUMED >= 1 \
         && (S0[CONSUMED - 1] != 0xff || *s == e) \
         && (g_k >= CONSUMED - 1 || S0[g_k] == 0xff)))
 u32 read_literal(u8 const **s, u8 const *const e, u32 l) READ_LITERAL_CONTRACT;
-/* CBMC 6.11 (dfcc) gives every replaced call of ONE contract the same nondet value for a pointer-typed assigns target (the
-   havoc function's __invalid_ptr has no DECL), so two calls of read_literal on one path would force both to leave *s
-   equal and make every path through the second call infeasible.  The two call sites of read_sequence therefore use two
-   names for the same contract text (proved once, for read_literal, in unit c14_read_literal). */
-u32 read_literal_a(u8 const **s, u8 const *const e, u32 l) READ_LITERAL_CONTRACT;
-u32 read_literal_b(u8 const **s, u8 const *const e, u32 l) READ_LITERAL_CONTRACT;
 
 #define IN_LO(p) (g_in == NULL || !SAME(p, g_in) || OFF(p) >= g_in_lo)     /* not below the input block */
 #define OUT_LO(p) (g_outp == NULL || !SAME(p, g_outp) || OFF(p) >= g_out_lo) /* not below the output buffer */
@@ -204,16 +199,9 @@ const u8 *g_lit; u32 g_ll, g_ml, g_dist; size_t g_nseq;
                   __CPROVER_loop_invariant(g_k >= (size_t)(OFF(s) - OFF(__CPROVER_loop_entry(s))) || __CPROVER_loop_entry(s)[g_k] == 0xff)
                   __CPROVER_decreases(OFF(e) - OFF(s)))"""}}@*/
 
-#ifdef UNIT_c14_read_sequence
-#define RL_A read_literal_a
-#define RL_B read_literal_b
-#else
-#define RL_A read_literal
-#define RL_B read_literal
-#endif
 /*@extract {'file':'src/Decompressor.cpp', 'sig': r'bool read_sequence\(u8 const \* &src, u8 const \* const end, u8 const \* &literal,\s*u32 & literal_len, u32 & match_len, u32 & match_dist\)',
    'emit':'bool read_sequence(u8 const **src, u8 const *const end, u8 const **literal, u32 *literal_len, u32 *match_len, u32 *match_dist)',
-   'subs':[[r'read_literal\(src, end, token >>', 'RL_A(&src, end, token >>', 0], [r'read_literal\(src, end, token &', 'RL_B(&src, end, token &', 0], [r'read_literal\(src, end,', 'RL_A(&src, end,', 0]],
+   'subs':[[r'read_literal\(src, end,', 'read_literal(&src, end,', 0]],
    'refs':['src','literal','literal_len','match_len','match_dist']}@*/
 
 /* ---- ghost protocol of unit c14_lz4_safety ("glue exactness"): lz4::decompress executes exactly the copy program of the
@@ -318,16 +306,18 @@ void h_read_sequence(void)
 #ifdef WITNESS
     __CPROVER_assume(w_n <= WB);
 #else
-    __CPROVER_assume(w_n <= MAXN);
+    __CPROVER_assume(w_n <= 48);
 #endif
     __CPROVER_assume(w_at < w_n && w_n >= 6);
-    u8 *buf = malloc(w_n); __CPROVER_assume(buf != NULL);
+    /* constant-size object; the input is its LAST w_n bytes, so a read past `end` leaves the object */
+    u8 *obj = malloc(48); __CPROVER_assume(obj != NULL);
+    u8 *buf = obj + (48 - w_n);
 #ifdef WITNESS
     u8 w_b[WB]; FILL(buf, w_n);
 #endif
     struct { u8 const *src, *literal; u32 literal_len, match_len, match_dist; } *v = malloc(sizeof(*v)); __CPROVER_assume(v != NULL);
     v->src = buf + w_at; v->literal = NULL;
-    g_k = nondet_size_t();
+    g_k = nondet_size_t(); g_in = buf; g_in_lo = (long)(48 - w_n);
     bool r = read_sequence(&v->src, buf + w_n, &v->literal, &v->literal_len, &v->match_len, &v->match_dist);
     if (r && v->literal_len >= 15 && v->match_len >= 19) CANARY();     /* vacuity guard on the deepest path: a complete sequence with both length extensions */
 }
